@@ -131,4 +131,72 @@ theorem x2xScan_ok (dets : List Dev) (trig : Dev → Bool) (init0 init1 start st
   rw [ht] at hz
   simp [x2xScan, Nat.ne_of_gt hnum, hz, ndMeta, x2xTraj]
 
+
+theorem length_snapshots (p : Pos) (l : List Msg) : (snapshots p l).length = l.count Msg.save := by
+  induction l generalizing p with
+  | nil => simp [snapshots]
+  | cons m rest ih => cases m <;> simp [snapshots, ih]
+
+/-- keys of a step `l.zipIdx.map (fun x => (x.2, f x))` are 0, 1, 2, ... -/
+theorem nodup_keys_zipIdx_map {α : Type} (l : List α) (f : α × Nat → Rat) :
+    ((l.zipIdx.map fun x => (x.2, f x)).map (·.1)).Nodup := by
+  have : (l.zipIdx.map fun x => (x.2, f x)).map (·.1) = List.range l.length := by
+    rw [List.map_map, List.range_eq_range', ← List.zipIdx_map_snd 0 l]; rfl
+  rw [this]; exact List.nodup_range
+
+theorem keys_flatMap_subset {α : Type} (l : List (α × Nat)) (g : α × Nat → Option Rat) :
+    ∀ k ∈ (l.flatMap fun x => ((g x).map fun v => (x.2, v)).toList).map (·.1), k ∈ l.map (·.2) := by
+  intro k hk
+  simp only [List.mem_map, List.mem_flatMap, Option.mem_toList, Option.map_eq_some_iff] at hk
+  obtain ⟨y, ⟨x, hx, v, _, rfl⟩, rfl⟩ := hk
+  exact List.mem_map_of_mem hx
+
+theorem nodup_keys_flatMap {α : Type} (l : List (α × Nat)) (g : α × Nat → Option Rat)
+    (h : (l.map (·.2)).Nodup) :
+    ((l.flatMap fun x => ((g x).map fun v => (x.2, v)).toList).map (·.1)).Nodup := by
+  induction l with
+  | nil => simp
+  | cons x xs ih =>
+    simp only [List.map_cons, List.nodup_cons] at h
+    simp only [List.flatMap_cons, List.map_append]
+    rw [List.nodup_append]
+    refine ⟨?_, ih h.2, ?_⟩
+    · cases g x <;> simp
+    · intro a ha b hb
+      have hb' := keys_flatMap_subset xs g b hb
+      cases hg : g x with
+      | none => simp [hg] at ha
+      | some v =>
+        simp [hg] at ha
+        subst ha
+        intro hab
+        subst hab
+        exact h.1 hb'
+
+theorem nodup_snd_zipIdx {α : Type} (l : List α) : (l.zipIdx.map (·.2)).Nodup := by
+  have : l.zipIdx.map (·.2) = List.range l.length := by
+    rw [List.range_eq_range', ← List.zipIdx_map_snd 0 l]
+  rw [this]; exact List.nodup_range
+
+/-- log_scan: every block sets the motor (no cache) -/
+theorem snapshots_logBlocks (dets : List Dev) (trig : Dev → Bool) (steps : List Rat) (p : Pos) :
+    Matches (snapshots p (steps.map (one1dStep dets trig)).flatten) (steps.map fun x => [(0, x)]) := by
+  induction steps generalizing p with
+  | nil => simp [snapshots, Matches]
+  | cons x rest ih =>
+    obtain ⟨pre, hpre, hin⟩ := inert_triggerAndRead_init (dets ++ [Dev.mot 0]) trig
+    simp only [List.map_cons, List.flatten_cons, one1dStep, hpre, snapshots_append, finalPos_append]
+    simp only [List.cons_append, List.nil_append, snapshots, finalPos, snapshots_inert _ pre hin,
+      finalPos_inert _ pre hin, List.append_assoc, Matches]
+    refine ⟨by simp, ih _⟩
+
+theorem isPointBlock_one1dStep (dets : List Dev) (trig : Dev → Bool) (x : Rat) :
+    isPointBlock (one1dStep dets trig x) = true := by
+  simp only [isPointBlock, one1dStep, triggerAndRead, List.cons_append, List.append_assoc, blockFrom,
+    List.nil_append]
+  rw [blockFrom_triggers]
+  split
+  · simp only [List.nil_append, blockFrom]; exact blockFrom_reads _
+  · simp only [List.nil_append, List.cons_append, blockFrom]; exact blockFrom_reads _
+
 end BlueskyVerif.Pure.StepScan
